@@ -470,8 +470,12 @@ func CheckMain(id, tier string, only int) int {
 	}
 	if only < 0 {
 		b, _ := json.MarshalIndent(ev, "", " ")
-		_ = os.MkdirAll(filepath.Join(root, "evidence"), 0o755)
-		_ = os.WriteFile(filepath.Join(root, "evidence", id+".json"), append(b, '\n'), 0o644)
+		evdir := filepath.Join(root, "evidence")
+		if d := os.Getenv("VERIF_EVIDENCE_DIR"); d != "" {
+			evdir = d // self-validation against a scratch copy: not the evidence of /repo
+		}
+		_ = os.MkdirAll(evdir, 0o755)
+		_ = os.WriteFile(filepath.Join(evdir, id+".json"), append(b, '\n'), 0o644)
 	}
 	fmt.Printf("%s %s seed=%d: %s — %d cases, %d executions judged, %d distinct non-trivial, %d violation signature(s), %d known, %.1fs\n",
 		id, tier, seed, verdict, ran, evals, len(sigs), nviol, len(knownMet), time.Since(t0).Seconds())
